@@ -180,8 +180,10 @@ Inductive hook_spec : hook -> hook -> bool -> Prop :=
     hook_spec (HSingle q None (Some l)) (HSingle q (Some (l, false)) (Some l)) false
 | HS_S_new pre x post last :
     hook_spec (HSingle (pre ++ x :: post) None last) (HSingle post (Some (x, true)) last) true
-| HS_P pre x :
-    hook_spec (HPass (pre ++ [x]) None) (HPass [] (Some x)) true
+| HS_P pre x last :
+    hook_spec (HPass (pre ++ [x]) None last) (HPass [] (Some (x, true)) last) true
+| HS_P_old l :
+    hook_spec (HPass [] None (Some l)) (HPass [] (Some (l, false)) (Some l)) false
 | HS_KS m rel m' last : KSplit N.eqb last m rel m' ->
     hook_spec (HKSingle m None last) (HKSingle m' (Some rel) (ks_last N.eqb last rel))
               (existsb (fun e => snd e) rel).
@@ -218,6 +220,7 @@ Proof.
   - destruct (single_complete_new force pre post x last) as (ds & Hds).
     exists ds. rewrite Hds. reflexivity.
   - exists []. unfold decide_pass. rewrite rev_app_distr. reflexivity.
+  - destruct force; [specialize (Hf eq_refl); discriminate|]. exists []. reflexivity.
   - destruct (ksingle_complete N.eqb last m rel m' H force _ eq_refl) as (ds & Hds).
     { intro Hfo. left. auto. }
     exists ds. unfold decide_ksingle. rewrite Hds. reflexivity.
